@@ -43,6 +43,7 @@ type Engine struct {
 	noPrune   bool
 	tier      int
 
+	nDomain int
 	nForks  int
 	nDecide int
 	nPaths  int
@@ -210,7 +211,16 @@ func (e *Engine) globalPtr(st *State, g *ssa.Global) Val {
 	if id, ok := st.globals.get(key); ok {
 		return PtrVal{obj: id}
 	}
-	id := st.alloc(e.zero(g.Type().(*types.Pointer).Elem()))
+	et := g.Type().(*types.Pointer).Elem()
+	var init Val
+	if g.Pkg != nil && !e.initPkgs[g.Pkg.Pkg.Path()] && et.String() == "error" {
+		// sentinel error variables of packages whose init is not interpreted
+		// (strconv.ErrRange, io.EOF, ...): distinct non-nil opaque errors
+		init = opaqueErrNamed(st, key)
+	} else {
+		init = e.zero(et)
+	}
+	id := st.alloc(init)
 	st.globals.set(key, id)
 	return PtrVal{obj: id}
 }
@@ -325,7 +335,7 @@ func (e *Engine) modelValue(st *State, t *Term) (uint64, bool) {
 	return m[t], true
 }
 
-var noModel = os.Getenv("VF_MODEL") == ""
+var noModel = os.Getenv("VF_NOMODEL") != ""
 
 func (e *Engine) fetchModel() map[*Term]uint64 {
 	if noModel {
@@ -359,6 +369,20 @@ func (e *Engine) decide(st *State, c *Term) bool {
 	e.nDecide++
 	ft, ff := true, true
 	var mT, mF map[*Term]uint64
+	domT, domF, exact := e.domainSides(st, c)
+	if !domT && !domF {
+		abort("infeasible", "")
+	}
+	if exact || !domT || !domF {
+		// decided without the solver: a side that no value of the variable's
+		// feasible-value superset satisfies is infeasible; if the variable is
+		// not tied to others the superset is exact
+		e.nDomain++
+		ft, ff = domT, domF
+		if exact || !(domT && domF) {
+			goto decided
+		}
+	}
 	if !e.noPrune {
 		done := false
 		if st.model != nil {
@@ -366,40 +390,25 @@ func (e *Engine) decide(st *State, c *Term) bool {
 				done = true
 				if v == 1 {
 					mT = st.model
-					r := e.sol.Check(st.pc, Not(c))
-					ff = r != "unsat"
-					if r == "sat" {
-						mF = e.fetchModel()
-					}
-					e.sol.Done()
+					r := e.sol.Sides(st.pc, []*Term{Not(c)}, !noModel)[0]
+					ff = r.verdict != "unsat"
+					mF = r.model
 				} else {
 					mF = st.model
-					r := e.sol.Check(st.pc, c)
-					ft = r != "unsat"
-					if r == "sat" {
-						mT = e.fetchModel()
-					}
-					e.sol.Done()
+					r := e.sol.Sides(st.pc, []*Term{c}, !noModel)[0]
+					ft = r.verdict != "unsat"
+					mT = r.model
 				}
 			}
 		}
 		if !done {
-			r1 := e.sol.Check(st.pc, c)
-			ft = r1 != "unsat"
-			if r1 == "sat" {
-				mT = e.fetchModel()
-			}
-			e.sol.Done()
-			if ft {
-				r2 := e.sol.Check(st.pc, Not(c))
-				ff = r2 != "unsat"
-				if r2 == "sat" {
-					mF = e.fetchModel()
-				}
-				e.sol.Done()
-			}
+			rs := e.sol.Sides(st.pc, []*Term{c, Not(c)}, !noModel)
+			ft = rs[0].verdict != "unsat"
+			ff = rs[1].verdict != "unsat"
+			mT, mF = rs[0].model, rs[1].model
 		}
 	}
+decided:
 	switch {
 	case ft && ff:
 		e.nForks++
@@ -794,7 +803,7 @@ func (e *Engine) convert(st *State, v Val, from, to types.Type) Val {
 
 func (e *Engine) newState() *State {
 	n := 0
-	return &State{heap: newLmap[int, Val](), known: newLmap[*Term, bool](), globals: newLmap[string, int](), choices: newLmap[string, int](), nextObj: &n, unwind: map[*ssa.BasicBlock]int{}}
+	return &State{dom: newLmap[*Term, *[4]uint64](), multi: newLmap[*Term, bool](), heap: newLmap[int, Val](), known: newLmap[*Term, bool](), globals: newLmap[string, int](), choices: newLmap[string, int](), nextObj: &n, unwind: map[*ssa.BasicBlock]int{}}
 }
 
 func (e *Engine) pushFrame(st *State, fn *ssa.Function, args []Val, bind []Val, retTo ssa.Value) *Frame {
@@ -1054,6 +1063,13 @@ func (e *Engine) exec(st *State, fr *Frame, in ssa.Instruction) bool {
 		fr.env[in] = PtrVal{obj: id}
 	case *ssa.Store:
 		ap := e.get(st, fr, in.Addr).(PtrVal)
+		if len(ap.path) == 1 && fr.fn.Name() == "init" && ap.obj != 0 {
+			if arr, ok := st.hget(ap.obj).(ArrayVal); ok && len(arr.e) > 2000 {
+				// table initialisers of the generated lexer/parser (llir/ll):
+				// only the native parser needs them (see concolic.go)
+				break
+			}
+		}
 		e.storePtr(st, ap, e.get(st, fr, in.Val))
 	case *ssa.MakeSlice:
 		n := e.needInt(st, e.get(st, fr, in.Len), "make len")
@@ -1954,3 +1970,94 @@ func mergeVal(c *Term, a, b Val) (Val, bool) {
 }
 
 var _ = big.NewInt
+
+// ---------- byte-domain tracking (solver-free decisions on single bytes)
+
+func single8(t *Term) *Term {
+	fv := t.freeVars()
+	if len(fv) != 1 {
+		return nil
+	}
+	for v := range fv {
+		if v.s.K == 'v' && v.s.W == 8 {
+			return v
+		}
+	}
+	return nil
+}
+
+// syncDomains folds the pc conjuncts added since the last call into the
+// per-variable domains.
+func (e *Engine) syncDomains(st *State) {
+	for ; st.pcSeen < len(st.pc); st.pcSeen++ {
+		c := st.pc[st.pcSeen]
+		if x := single8(c); x != nil {
+			cur, ok := st.dom.get(x)
+			var nb [4]uint64
+			if !ok {
+				nb = [4]uint64{^uint64(0), ^uint64(0), ^uint64(0), ^uint64(0)}
+			} else {
+				nb = *cur
+			}
+			m := map[*Term]uint64{}
+			for v := 0; v < 256; v++ {
+				if nb[v>>6]&(1<<uint(v&63)) == 0 {
+					continue
+				}
+				m[x] = uint64(v)
+				r, ok := evalTerm(c, m, map[*Term]uint64{})
+				if ok && r == 0 {
+					nb[v>>6] &^= 1 << uint(v&63)
+				}
+			}
+			st.dom.set(x, &nb)
+			continue
+		}
+		fv := c.freeVars()
+		if len(fv) > 1 {
+			for v := range fv {
+				st.multi.set(v, true)
+			}
+		} else {
+			for v := range fv { // single variable of another sort: not tracked
+				st.multi.set(v, true)
+			}
+		}
+	}
+}
+
+// domainSides reports which truth values of c are possible over the
+// feasible-value superset of its (single, 8-bit) variable, and whether that
+// superset is exact (the variable occurs in no multi-variable conjunct).
+func (e *Engine) domainSides(st *State, c *Term) (canT, canF, exact bool) {
+	x := single8(c)
+	if x == nil {
+		return true, true, false
+	}
+	e.syncDomains(st)
+	nb := [4]uint64{^uint64(0), ^uint64(0), ^uint64(0), ^uint64(0)}
+	if cur, ok := st.dom.get(x); ok {
+		nb = *cur
+	}
+	m := map[*Term]uint64{}
+	for v := 0; v < 256; v++ {
+		if nb[v>>6]&(1<<uint(v&63)) == 0 {
+			continue
+		}
+		m[x] = uint64(v)
+		r, ok := evalTerm(c, m, map[*Term]uint64{})
+		if !ok {
+			return true, true, false
+		}
+		if r == 1 {
+			canT = true
+		} else {
+			canF = true
+		}
+		if canT && canF {
+			break
+		}
+	}
+	_, tied := st.multi.get(x)
+	return canT, canF, !tied
+}
